@@ -73,15 +73,16 @@ type hit struct {
 }
 
 type endpoint struct {
-	mu      sync.Mutex
-	addr    string
-	ln      net.Listener
-	srv     *http.Server
-	scripts map[string][]string
-	log     []hit
-	t0      time.Time
+	mu       sync.Mutex
+	addr     string
+	ln       net.Listener
+	srv      *http.Server
+	scripts  map[string][]string
+	log      []hit
+	t0       time.Time
 	closing  bool
 	inflight int
+	failing  bool // every request is answered 500
 }
 
 var nRe = regexp.MustCompile(`"fields":\{"n":(\d+)\}`)
@@ -102,6 +103,8 @@ func (e *endpoint) handler(w http.ResponseWriter, req *http.Request) {
 	out := "ok"
 	if e.closing {
 		out = "down" // the listener is going away: this request is not accepted
+	} else if e.failing {
+		out = "500"
 	} else if s := e.scripts[hook]; len(s) > 0 {
 		out = s[0]
 		e.scripts[hook] = s[1:]
@@ -790,7 +793,7 @@ func (x *run) scenario(sc scen) {
 				if regAt == 0 {
 					evs = append(evs, reg)
 				}
-				evs = append(evs, "r"+st.cid+".90") // another subscriber of the channel
+				evs = append(evs, "r"+st.cid+".90")                     // another subscriber of the channel
 				evs = append(evs, "r599.91", "u"+st.cid+".91", "U5.91") // the foreign (P)UNSUBSCRIBE of connection X
 				cnt := 0
 				for _, w := range ws {
@@ -811,6 +814,293 @@ func (x *run) scenario(sc scen) {
 	}
 	r.Sample(4, map[string]interface{}{"scenario": sc, "writes": total, "hA_requests": len(ep.hits("hA")), "hA_expected": len(want200["hA"])})
 	r.Dist(fmt.Sprintf("scenario:writers=%d", sc.Writers))
+	r.TracesImpl++
+}
+
+// ---- restart while the endpoint is failing -------------------------------------------------------------
+
+func (e *endpoint) setFailing(b bool) {
+	e.mu.Lock()
+	e.failing = b
+	e.mu.Unlock()
+}
+
+func (x *run) restartWhileFailing(name string, seed int64, nBefore, nAfter int) {
+	x.n++
+	r := x.r
+	rng := rand.New(rand.NewSource(seed))
+	cas := map[string]interface{}{"name": name, "seed": seed, "writes_before_restart": nBefore, "writes_after_restart": nAfter}
+	fail := func(kind, sig, what string, impl, mod interface{}) {
+		r.Fail(hx.Failure{Kind: kind, Signature: sig, What: what, Case: cas, Impl: impl, Model: mod})
+	}
+	dir := filepath.Join(x.cfg.Work, fmt.Sprintf("c10-%d", x.n))
+	s, err := srv.Start(dir)
+	if err != nil {
+		fail("correspondence", "server-start", err.Error(), nil, nil)
+		return
+	}
+	defer func() { s.Kill() }()
+	ep := &endpoint{scripts: map[string][]string{}, t0: time.Now()}
+	if err := ep.up(); err != nil {
+		fail("correspondence", "endpoint", err.Error(), nil, nil)
+		return
+	}
+	defer ep.down()
+	hooks := []string{"hA", "hB"}
+	adm := s.MustDial()
+	for _, h := range hooks {
+		b := bounds[hookArea[h]]
+		if v, err := adm.Do("SETHOOK", h, "http://"+ep.addr+"/"+h, "WITHIN", "fleet", "FENCE", "DETECT", "inside", "BOUNDS", b[0], b[1], b[2], b[3]); err != nil || v.IsErr() {
+			fail("correspondence", "setup", fmt.Sprintf("SETHOOK: %v %v", v.String(), err), nil, nil)
+			return
+		}
+	}
+	n := 0
+	write := func(c *srv.Conn) bool {
+		n++
+		lat := 0.1 + 0.3*rng.Float64() // inside both areas
+		if rng.Intn(3) == 0 {
+			lat = 0.6 + 0.3*rng.Float64() // big only
+		}
+		c.Timeout = 20 * time.Second
+		v, err := c.Do("SET", "fleet", []string{"a", "b", "c"}[rng.Intn(3)], "FIELD", "n", strconv.Itoa(900000+n), "POINT",
+			strconv.FormatFloat(lat, 'f', 6, 64), strconv.FormatFloat(0.1+0.8*rng.Float64(), 'f', 6, 64))
+		if err != nil || v.String() != "+OK" {
+			fail("correspondence", "writer", fmt.Sprintf("SET: %v %v", v.String(), err), nil, nil)
+			return false
+		}
+		return true
+	}
+	count := func(h, outcome string) int {
+		k := 0
+		for _, x := range ep.hits(h) {
+			if x.Outcome == outcome {
+				k++
+			}
+		}
+		return k
+	}
+	waitFor := func(cond func() bool, d time.Duration) bool {
+		dl := time.Now().Add(d)
+		for time.Now().Before(dl) {
+			if cond() {
+				return true
+			}
+			time.Sleep(2 * time.Millisecond)
+		}
+		return cond()
+	}
+	// phase 0: healthy
+	for i := 0; i < 2; i++ {
+		if !write(adm) {
+			return
+		}
+	}
+	waitFor(func() bool { return count("hA", "ok") >= 2 }, 3*time.Second)
+	// phase 1: the endpoint fails, writes queue up
+	ep.setFailing(true)
+	for i := 0; i < nBefore; i++ {
+		if !write(adm) {
+			return
+		}
+	}
+	adm.Close()
+	fa := count("hA", "500")
+	if !waitFor(func() bool { return count("hA", "500") > fa && count("hB", "500") > 0 }, 5*time.Second) {
+		fail("correspondence", "endpoint", "the failing endpoint saw no retry", nil, nil)
+		return
+	}
+	// kill -9 while both managers sleep between two attempts (an attempt answered 500 is re-inserted
+	// at once; the next one comes 0.5 s later): nothing is between its two transactions
+	lastAt := func(h string) time.Duration {
+		hs := ep.hits(h)
+		if len(hs) == 0 {
+			return 0
+		}
+		return hs[len(hs)-1].At
+	}
+	waitFor(func() bool {
+		now := time.Since(ep.t0)
+		for _, h := range hooks {
+			d := now - lastAt(h)
+			if d < 60*time.Millisecond || d > 380*time.Millisecond {
+				return false
+			}
+		}
+		return true
+	}, 5*time.Second)
+	s.Kill()
+	beforeRestart := map[string]int{}
+	for _, h := range hooks {
+		beforeRestart[h] = len(ep.hits(h))
+	}
+	s2, err := srv.Start(dir)
+	if err != nil {
+		fail("oracle", "restart-failed", "server does not restart after kill -9: "+err.Error(), nil, nil)
+		return
+	}
+	s = s2
+	// the restarted process must take up the backlog (still failing)
+	waitFor(func() bool { return len(ep.hits("hA")) > beforeRestart["hA"] }, 5*time.Second)
+	w2 := s.MustDial()
+	defer w2.Close()
+	for k := 0; k < 2000; k++ { // PING is answered before the log has been replayed
+		if v, err := w2.Do("GET", "fleet", "a"); err != nil || !(v.IsErr() && strings.HasPrefix(v.Str, "LOADING")) {
+			break
+		}
+		time.Sleep(5 * time.Millisecond)
+	}
+	// phase 2: further writes, still failing; then the endpoint recovers
+	for i := 0; i < nAfter; i++ {
+		if !write(w2) {
+			return
+		}
+	}
+	ep.setFailing(false)
+	ws, err := parseAOF(filepath.Join(dir, "appendonly.aof"))
+	if err != nil || len(ws) != n {
+		fail("oracle", "aof-missing-acknowledged-write", fmt.Sprintf("%d SETs acknowledged, %d in appendonly.aof (%v)", n, len(ws), err), len(ws), n)
+		return
+	}
+	ok200 := func(h string) []int {
+		var out []int
+		for _, x := range ep.hits(h) {
+			if x.Outcome == "ok" {
+				out = append(out, x.N)
+			}
+		}
+		return out
+	}
+	waitFor(func() bool {
+		for _, h := range hooks {
+			if len(ok200(h)) < len(expectedFor(ws, hookArea[h])) {
+				return false
+			}
+		}
+		return true
+	}, 8*time.Second)
+	time.Sleep(800 * time.Millisecond)
+	restartAfter := 0 // number of notifying writes before the restart
+	var enq []string
+	for i, w := range ws {
+		var ms []string
+		if inside("big", w.Lat, w.Lon) {
+			ms = append(ms, "1."+strconv.Itoa(w.N))
+		}
+		if inside("small", w.Lat, w.Lon) {
+			ms = append(ms, "2."+strconv.Itoa(w.N))
+		}
+		if len(ms) > 0 {
+			enq = append(enq, strings.Join(ms, ","))
+			if i < 2+nBefore {
+				restartAfter++
+			}
+		}
+	}
+	for _, h := range hooks {
+		want := expectedFor(ws, hookArea[h])
+		got := ok200(h)
+		r.Count(fmt.Sprintf("%s|%s|%s", name, h, ints(want)), len(want) >= 2)
+		r.Dist("receiver:hook-restart")
+		if !eqInts(got, want) {
+			cl := classify(got, want)
+			sig := "hook-" + cl
+			if cl == "lost" {
+				sig = "hook-lost-after-restart"
+			}
+			fail("oracle", sig, fmt.Sprintf("webhook %s: the endpoint failed (500), the server was killed and restarted while it was failing, %d more writes followed, the endpoint recovered: it accepted %s; the writes generated %s", h, nAfter, ints(got), ints(want)), ints(got), ints(want))
+		}
+		outs := ""
+		var attempts []int
+		for _, x := range ep.hits(h) {
+			attempts = append(attempts, x.N)
+			if x.Outcome == "ok" {
+				outs += "1"
+			} else {
+				outs += "0"
+			}
+		}
+		rep := x.drv.Ask("hooksim", map[string]string{"hA": "1", "hB": "2"}[h], strings.Join(enq, ";"), outs, strconv.Itoa(restartAfter))
+		if ma, md := parseKV(rep, "attempts"), parseKV(rep, "delivered"); !eqInts(ma, attempts) || !eqInts(md, got) {
+			fail("correspondence", "hook-model", fmt.Sprintf("webhook %s with a restart after %d notifying writes: the endpoint saw requests %s (200: %s); the model attempts %s and delivers %s",
+				h, restartAfter, ints(attempts), ints(got), ints(ma), ints(md)), ints(attempts), rep)
+		}
+	}
+	r.Dist("scenario:restart-while-failing")
+	r.TracesImpl++
+}
+
+// ---- many hooks per write: every notification of a healthy endpoint arrives within a bound, without a later event ----
+
+func (x *run) manyHooks(nHooks, nWrites int) {
+	x.n++
+	r := x.r
+	cas := map[string]interface{}{"name": "many hooks per write", "hooks": nHooks, "writes": nWrites}
+	fail := func(kind, sig, what string, impl, mod interface{}) {
+		r.Fail(hx.Failure{Kind: kind, Signature: sig, What: what, Case: cas, Impl: impl, Model: mod})
+	}
+	s, err := srv.Start(filepath.Join(x.cfg.Work, fmt.Sprintf("c10-%d", x.n)))
+	if err != nil {
+		fail("correspondence", "server-start", err.Error(), nil, nil)
+		return
+	}
+	defer s.Kill()
+	ep := &endpoint{scripts: map[string][]string{}, t0: time.Now()}
+	if err := ep.up(); err != nil {
+		fail("correspondence", "endpoint", err.Error(), nil, nil)
+		return
+	}
+	defer ep.down()
+	c := s.MustDial()
+	defer c.Close()
+	for i := 0; i < nHooks; i++ {
+		h := fmt.Sprintf("k%03d", i)
+		if v, err := c.Do("SETHOOK", h, "http://"+ep.addr+"/"+h, "WITHIN", "fleet", "FENCE", "DETECT", "inside", "BOUNDS", "0", "0", "1", "1"); err != nil || v.IsErr() {
+			fail("correspondence", "setup", fmt.Sprintf("SETHOOK: %v %v", v.String(), err), nil, nil)
+			return
+		}
+	}
+	bound := 3 * time.Second
+	for w := 1; w <= nWrites; w++ {
+		if v, err := c.Do("SET", "fleet", "a", "FIELD", "n", strconv.Itoa(w), "POINT", "0.5", strconv.FormatFloat(0.1+0.01*float64(w), 'f', 4, 64)); err != nil || v.String() != "+OK" {
+			fail("correspondence", "writer", fmt.Sprintf("SET: %v %v", v.String(), err), nil, nil)
+			return
+		}
+		have := func() map[string]int {
+			m := map[string]int{}
+			ep.mu.Lock()
+			for _, h := range ep.log {
+				if h.N == w {
+					m[h.Hook]++
+				}
+			}
+			ep.mu.Unlock()
+			return m
+		}
+		dl := time.Now().Add(bound)
+		for time.Now().Before(dl) && len(have()) < nHooks {
+			time.Sleep(2 * time.Millisecond)
+		}
+		m := have()
+		r.Count(fmt.Sprintf("manyhooks|%d|%d", nHooks, w), true)
+		r.Dist("receiver:many-hooks-write")
+		if len(m) < nHooks {
+			var missing []string
+			for i := 0; i < nHooks && len(missing) < 8; i++ {
+				if h := fmt.Sprintf("k%03d", i); m[h] == 0 {
+					missing = append(missing, h)
+				}
+			}
+			fail("oracle", "hook-not-delivered-without-later-event", fmt.Sprintf("write n=%d notifies %d healthy webhooks; %d of them had not received it %v later although no endpoint ever failed (e.g. %v): a queued notification must not wait for a later event", w, nHooks, nHooks-len(m), bound, missing), len(m), nHooks)
+		}
+		for h, k := range m {
+			if k > 1 {
+				fail("oracle", "hook-duplicate", fmt.Sprintf("webhook %s received the notification of write n=%d %d times from a healthy endpoint", h, w, k), k, 1)
+				break
+			}
+		}
+	}
+	r.Dist("scenario:many-hooks")
 	r.TracesImpl++
 }
 
@@ -1134,6 +1424,12 @@ func runC10(r *hx.Result, cfg hx.Config) {
 		{Name: "hang-then-close and reset", Writers: 4, PerWriter: 25, Scripts: map[string][]string{"hA": {"ok", "hang", "ok", "reset"}, "hB": {"reset", "ok", "ok", "hang"}}},
 		{Name: "listener down in the middle", Writers: 4, PerWriter: 30, DownMid: true},
 	}
+	if v := os.Getenv("C10_MANY"); v != "" { // development aid: only the many-hooks case, "hooks,writes"
+		var a, b int
+		fmt.Sscanf(v, "%d,%d", &a, &b)
+		x.manyHooks(a, b)
+		return
+	}
 	// pub/sub churn first (fast, deterministic order of operations)
 	nc, ops := churnCorpus()
 	x.churn("churn: foreign and partial unsubscribes", nc, ops)
@@ -1145,11 +1441,20 @@ func runC10(r *hx.Result, cfg hx.Config) {
 		nc, ops := randomChurn(rng)
 		x.churn(fmt.Sprintf("churn-%d", i), nc, ops)
 	}
+	// restart while the endpoint is failing; many hooks per write
+	nRestart, nh, nw := 2, 400, 4
+	if cfg.Tier == "thorough" || cfg.Search {
+		nRestart, nh, nw = 12, 400, 12
+	}
+	for i := 0; i < nRestart; i++ {
+		x.restartWhileFailing(fmt.Sprintf("restart-while-failing-%d", i), rng.Int63(), 2+rng.Intn(2), 1+rng.Intn(2))
+	}
+	x.manyHooks(nh, nw)
 	for i := range corpus {
 		corpus[i].Seed = cfg.Seed + int64(i)
 		x.scenario(corpus[i])
 	}
-	n, budget := 4, 45*time.Second
+	n, budget := 3, 40*time.Second
 	if cfg.Tier == "thorough" {
 		n, budget = 150, 12*time.Minute
 	}
